@@ -93,7 +93,7 @@ for _pid, _q, _t in (('C01', 12000, 120000), ('C06', 15000, 150000), ('C07', 120
                      ('C19', 12000, 120000), ('C04', 8000, 60000), ('C10', 1900, 30000), ('C11', 2300, 30000),
                      ('C13', 1500, 20000), ('C14', 2500, 25000), ('C15', 8000, 80000), ('C16', 3000, 30000),
                      ('C18', 8000, 80000)):
-    reg(Prop(_pid, {'quick': _q, 'thorough': _t}, {'quick': 100, 'thorough': 1500},
+    reg(Prop(_pid, {'quick': _q, 'thorough': _t}, {'quick': 100, 'thorough': 900},
              NT[_pid][1] if _pid in NT else RULE_HIST, nontrivial=NT[_pid][0] if _pid in NT else nt_structure,
              cfg={'thorough': {'all_attrs': True}} if _pid == 'C04' else
              {'quick': {}, 'thorough': {'nsteps_max': 36, 'long_n': 60, 'max_ops': 140}}))
@@ -109,7 +109,7 @@ RULE_C17 = ('one evaluation = one seeded complete score (built by the library fr
             'destination state fault-free; break.node_k for every node and requirement kind; async exceptions at sampled '
             'function entries of write(); SimFS errors at open / each write / close, short writes, ENOSPC, read-only, '
             'directory; distinct = distinct documents (op-list hash); non-trivial = at least one fault fired in its cases')
-reg(Prop('C17', {'quick': 400, 'thorough': 6000}, {'quick': 100, 'thorough': 1500}, RULE_C17, level='fault_enumeration',
+reg(Prop('C17', {'quick': 400, 'thorough': 6000}, {'quick': 100, 'thorough': 900}, RULE_C17, level='fault_enumeration',
          cfg={'quick': {'max_ops': 400, 'max_size': 30, 'async_points': 4}, 'thorough': {'max_ops': 400, 'max_size': 60, 'async_points': 12}},
          nontrivial=nt_fault_fired, prefix_closed=False, extra=_c17_extra,
          assumptions=['SimFS models open/write/close/replace/remove for the virtual mount /simfs only; tempfile/os.open based implementations are not modelled',
@@ -127,7 +127,7 @@ def nt_c09(main):
     return any(k.startswith('fault.disk.') and not k.endswith('.noop') for k in s) or s.get('c09.documents.foreign', 0) > 0
 
 
-reg(Prop('C09', {'quick': 3000, 'thorough': 40000}, {'quick': 100, 'thorough': 1500}, RULE_C09,
+reg(Prop('C09', {'quick': 3000, 'thorough': 40000}, {'quick': 100, 'thorough': 900}, RULE_C09,
          cfg={'quick': {'max_size': 30}, 'thorough': {'max_size': 60, 'big_real': True}}, nontrivial=nt_c09, timeout=180))
 
 
@@ -135,7 +135,7 @@ RULE_C20 = ('one evaluation = one schedule of one program pair executed in a fre
             'pre-empted at its k-th traced library line with B running to completion in the gap (single-pre-emption '
             'family), or a seeded multi-switch schedule; distinct = distinct switch-point lists (thread, file:line, '
             'per-thread line count); non-trivial = at least one thread switch actually happened inside library code')
-reg(Prop('C20', {'quick': 0, 'thorough': 0}, {'quick': 100, 'thorough': 1500}, RULE_C20, level='fault_enumeration', mode='threads',
+reg(Prop('C20', {'quick': 0, 'thorough': 0}, {'quick': 100, 'thorough': 900}, RULE_C20, level='fault_enumeration', mode='threads',
          cfg={'quick': {'pairs': 3, 'k_per_pair': 100, 'pct_per_pair': 20, 'small': True, 'window_cap': 2000, 'triples': 1, 'pct_per_triple': 40}, 'thorough': {'pairs': 6, 'all_k_pairs': 2, 'k_per_pair': 2000, 'pct_per_pair': 400, 'triples': 3, 'pct_per_triple': 300}}))
 
 
